@@ -140,7 +140,7 @@ def run(ctx):
     ctx.rule("C17.c", "non-numeric dtypes and nulls raise before anything is returned", 4)
 
     def raises_on(fi, pred):
-        return any(end_kind(p) == "raise" and any(s[0] == "cond" and s[2] and pred(U(s[1])) for s in p) for p in function_paths(fi.node))
+        return any(end_kind(p) == "raise" and any(s[0] == "cond" and pred(U(s[1]) if s[2] else "not " + U(s[1])) for s in p) for p in function_paths(fi.node))
     c = cells.get(("pandas.Series", "extract_1d_array"))
     ctx.check(bool(c) and raises_on(c[1], lambda t: "is_numeric_dtype" in t and t.startswith("not ")), "C17.c", "pandas.Series:numeric", "non-numeric Series refused",
               "non-numeric pandas Series are no longer refused", c[1].where if c else pdm.relpath)
